@@ -94,6 +94,8 @@ class Rig(object):
     # ------------------------------------------------------------------ scheduler patches
     def _execute(self, ev):
         s = self.sched
+        if ev.direction == "cpu":
+            return grid.Sched._execute(s, ev)
         try:
             meth = getattr(ev.target, "remote_" + ev.meth)
             res = meth(*ev.args, **ev.kwargs)
